@@ -1,5 +1,6 @@
 import GluonModel.Sexp
 import GluonModel.GcHeap
+import GluonModel.GcHandles
 open GluonModel GluonModel.GcHeap
 
 def parsePath : Sexp → Option (List Nat)
@@ -36,6 +37,67 @@ def parseMarked : Sexp → Option (List Nat)
   | .list (.atom "marked" :: ms) => ms.mapM Sexp.toNat?
   | _ => none
 
+/-! host-handle histories: `(handles (threads ((0) 0) …) (ops (mk (0) 2) (clone 0) (drop 1)
+(field 0 1) (reroot 0 (0 0)) (collect (0)) (read 2) …))` → one observation per op: the host-root
+multiset of every thread after a handle operation, the live objects of the swept heaps after a
+collection, the object a handle denotes (and whether it is live) for a read. -/
+
+def parseThread : Sexp → Option (List Nat × Nat)
+  | .list [p, i] => do
+    let p ← parsePath p
+    let i ← i.toNat?
+    pure (p, i)
+  | _ => none
+
+def rootsObs (s : State) (paths : List (List Nat)) : String :=
+  "(roots" ++ String.join (paths.map fun t => " (" ++ (natList (hostRoots s t)).trimAsciiStart.toString ++ ")") ++ ")"
+
+def handleOp (paths : List (List Nat)) (hs : HState) : Sexp → Option (HState × String)
+  | .list [.atom "mk", t, sh] => do
+    let t ← parsePath t
+    let sh ← sh.toNat?
+    let hs' := hstep hs (.mk t sh)
+    pure (hs', rootsObs hs'.s paths)
+  | .list [.atom "clone", h] => do
+    let h ← h.toNat?
+    let hs' := hstep hs (.clone h)
+    pure (hs', rootsObs hs'.s paths)
+  | .list [.atom "drop", h] => do
+    let h ← h.toNat?
+    let hs' := hstep hs (.drop h)
+    pure (hs', rootsObs hs'.s paths)
+  | .list [.atom "field", h, k] => do
+    let h ← h.toNat?
+    let k ← k.toNat?
+    let hs' := hstep hs (.field h k)
+    pure (hs', rootsObs hs'.s paths)
+  | .list [.atom "reroot", h, t] => do
+    let h ← h.toNat?
+    let t ← parsePath t
+    let hs' := hstep hs (.reroot h t)
+    pure (hs', rootsObs hs'.s paths)
+  | .list [.atom "collect", t] => do
+    let t ← parsePath t
+    let hs' := hstep hs (.collect t)
+    pure (hs', "(alive" ++ natList (aliveIn hs'.s t) ++ ")")
+  | .list [.atom "read", h] => do
+    let h ← h.toNat?
+    match hs.handle h with
+    | some (_, r) =>
+      pure (hs, if (hs.s.obj r).isSome then "(r " ++ toString r ++ " same)" else "(r " ++ toString r ++ " dangling)")
+    | none => pure (hs, "(r none)")
+  | _ => none
+
+def handleOps (paths : List (List Nat)) : HState → List Sexp → Option String
+  | _, [] => some ""
+  | hs, op :: ops =>
+    match handleOp paths hs op with
+    | none => none
+    | some (hs', o) =>
+      match handleOps paths hs' ops with
+      | none => none
+      | some r => some (" " ++ o ++ r)
+
 def handle : List Sexp → String
   | [.atom "collect", t, objs, marked] =>
     match parsePath t, parseObjs objs, parseMarked marked with
@@ -53,6 +115,14 @@ def handle : List Sexp → String
       | some f => "(freed" ++ natList f ++ ")"
       | none => "out-of-fuel"
     | _, _ => "bad-request"
+  | [.atom "handles", .list (.atom "threads" :: ths), .list (.atom "ops" :: ops)] =>
+    match ths.mapM parseThread with
+    | some ths =>
+      let paths := [0] :: ths.map fun (p, i) => p ++ [i]
+      match handleOps paths (hinit ths) ops with
+      | some r => "(h" ++ r ++ ")"
+      | none => "bad-request"
+    | none => "bad-request"
   | _ => "bad-request"
 
 def main : IO Unit := driverLoop handle
